@@ -256,7 +256,7 @@ def check_property(verif, pid, tier, cp, keep=False):
             if key in seen:
                 continue
             seen.add(key)
-            print(f"KNOWN-FINDING: property={hit['property']} obligation={hit['obligation']} {hit['text']}")
+            print(f"KNOWN-FINDING: property={pid} obligation={hit['obligation']} {hit['text']}")
         replay_paths = []
         os.makedirs(os.path.join(verif, "replays", "out"), exist_ok=True)
         for n, (eng, unit, err) in enumerate(violations):
